@@ -121,7 +121,7 @@ def lists_st():
 
 MALFORMED_PEERS = ["unknown", "", "not-an-ip", "300.1.1.1", "1.2.3", "1.2.3.4.5", "::g", "1.2.3.4 ", " 1.2.3.4", "0x7f.1", "127.1",
                    "fe80::1%eth0", "fe80::1%1", "::ffff:10.0.0.1", "::ffff:127.0.0.1", "::ffff:127.0.0.9", "::ffff:10.1.2.3", "::ffff:192.0.2.77",
-                   "::ffff:c000:24d", "010.0.0.1", "1.2.3.4/32", "[::1]", "localhost"]
+                   "::ffff:c000:24d", "010.0.0.1", "1.2.3.4/32", "[::1]", "localhost", "10.1.2.3%eth0", "127.0.0.1%lo", "not-an-ip%eth0", "%eth0"]
 
 
 @st.composite
@@ -138,6 +138,8 @@ def case_st(draw):
         for v in (base, base + size - 1, base - 1, base + size):
             if 0 <= v < (1 << bits):
                 peers.append(from_int(fam, v))
+                if fam == socket.AF_INET and draw(st.integers(0, 5)) == 0:
+                    peers.append(from_int(fam, v) + "%eth0")  # no address: IPv4 has no zones
                 if scoped:
                     # the same address as a link-local peer reports it (zone id appended)
                     peers.append(from_int(fam, v) + draw(st.sampled_from(["%eth0", "%1", "%lo"])))
@@ -170,9 +172,14 @@ def ref_decision(case, peer: str):
         # scoped IPv6: the zone names an interface, the address is what the lists are about
         addr, _, zone = peer.partition("%")
         t6 = to_int(addr)
-        if not zone or "%" in zone or t6 is None or t6[0] != socket.AF_INET6 or not zone.isalnum():
-            return "grey"
-        peer = addr
+        if t6 is None or t6[0] != socket.AF_INET6:
+            # a zone exists for IPv6 addresses only (RFC 4007): '10.1.2.3%eth0' or 'x%eth0' is no address at all.
+            # Decided like any other unparsable peer below
+            peer = "unparsable:" + peer
+        elif not zone or "%" in zone or not zone.isalnum():
+            return "grey"  # an IPv6 address with an odd zone: whether that still is an address is not stated
+        else:
+            peer = addr
     t = to_int(peer)
     if t is None:
         if case["layer"] not in ("object", "titan") and not case["allow"] and not case["deny"] and case["default_allow"]:
